@@ -285,9 +285,9 @@ var scenarios = []scenario{
 			h.pending(300)
 			t0 := h.probe()
 			h.pending(600)
-			h.begin(0, 300, "-")   // end matches nothing: 409
-			h.upload(0, 300, t0)   // a ticket for an older pending checkpoint
-			t1 := h.probe()        // 600
+			h.begin(0, 300, "-") // end matches nothing: 409
+			h.upload(0, 300, t0) // a ticket for an older pending checkpoint
+			t1 := h.probe()      // 600
 			h.pending(900)
 			h.upload(300, 600, t1)
 			h.upload(300, 300, t0) // rewind: end below the mirror checkpoint
@@ -297,17 +297,11 @@ var scenarios = []scenario{
 			for i := 0; i < 8; i++ {
 				h.begin(600, 900, "g") // forged / garbage tickets
 			}
-			// a ticket sealing the mirror checkpoint (resolved against the mirror checkpoint, start window)
-			_, r := h.begin(700, 600, "-") // end < start
-			_, r = h.begin(601, 600, "-")
-			_, r = h.begin(0, 600, "-") // start = 0 is within the window: gate
-			h.drainOne()
+			h.begin(700, 600, "-") // end < start
+			h.upload(0, 600, "-")  // resolved against the mirror checkpoint, start within the window: re-upload
 			h.upload(600, 900, t2)
-			_, r = h.begin(901, 900, "-")
-			_, r = h.begin(950, 900, "-")
-			s, r := h.begin(900, 900, "-") // resolved = mirror checkpoint
-			h.runToEnd(s, r)
-			t3 := h.probe() // 1200
+			h.upload(900, 900, "-") // resolved = mirror checkpoint: a fresh signature
+			t3 := h.probe()         // 1200
 			h.pending(1500)
 			h.evRestart()
 			h.begin(900, 1200, t3) // the ticket of the previous incarnation no longer opens
@@ -428,7 +422,7 @@ var scenarios = []scenario{
 			t0 := h.probe()
 			h.pending(1200)
 			h.uploadBody(0, 1200, "-", h.log.honestBody(0, 1200, 4)) // next = 1024
-			h.upload(900, 900, t0)                                 // cut tile from the full tile
+			h.upload(900, 900, t0)                                   // cut tile from the full tile
 			h.evRestart()
 			h.upload(900, 1200, "-")
 		})
@@ -538,12 +532,14 @@ var scenarios = []scenario{
 			h.pending(65000)
 			h.upload(0, 65000, "-")
 			h.pending(66000)
-			h.upload(65000, 66000, "-") // crosses 65536: level-2 tile, the level-1 full tile
+			h.upload(65000, 66000, "-")       // crosses 65536: level-2 tile, the level-1 full tile
+			h.upload(66000-8*256, 66000, "-") // re-upload across the boundary while every partial tile is still there
 			h.evGC()
 			h.evRestart()
 			h.pending(66500)
 			h.resume()                        // (a) from the mirror checkpoint
 			h.upload(66500-8*256, 66500, "-") // (b) re-upload across the 65536 boundary
+			h.upload(65280, 66500, "-")       // rewrites tile/1/000 and tile/2/000.p/1 from tile/1/000.p/255
 			h.upload(65536, 66500, "-")
 			h.upload(66500, 66500, "-")
 		})
